@@ -36,6 +36,11 @@ claim("C05",
       "Trusted: Lean kernel, 3 axioms, extractor, hooks, litparse (syntax to IR), Go compiler as the semantics of the emitted subset. Assumed: math/rand contracts (Intn(n) < n, Perm is a permutation) for well-formedness of the draws.",
       "Lean 4 proof (encoder/decoder round trips for all inputs and draws) + emitted-decoder evaluation in the model + compile-and-run", "DESIGN.md 5/C05")
 
+claim("C06",
+      "Lean 4 theorems. Key completeness: C12's unseeded_preimage_injective (re-proved after two fix commits: GOGARBLE hashed last; -X targets hashed under -literals) shows every garble input - action ID, garble binary, -literals, -tiny, -seed, control flow, GOGARBLE, -X target set - reaches the -V=full tool ID / garble action ID pre-image injectively, for all values; garble_keys_distinct (the three derived GARBLE_CACHE keys have different pre-images for every action ID); pkgcache_key_covers_deps (the deep per-package key changes when any dependency's garble action ID changes - the fix for the stale reflection cache). History correctness: history_correct - for EVERY history of builds and cache faults over a content-addressed store whose readable entries are sound, every build returns the cold result and soundness is preserved (induction over the operation list); noop_rebuild_hits. Tie: the oracle streams of C12 (real appendFlags / addGarbleToHash incl. the new ldx op); end to end, a history of real garble builds over a private cache pair (default, -literals -seed, -ldflags=-X values, comment-only and body edits in a dependency; thorough adds -tiny, seeds, GOGARBLE subsets incl. flag-lookalikes, control flow, -tags) where EVERY step's binary is compared byte for byte with a build in caches that never saw the module; a final no-op rebuild must recompile nothing.",
+      "Trusted: Lean kernel, 3 axioms, hooks, e2e runner. Assumed: SHA-256 collision resistance; cmd/go's action IDs cover source/tags/GOOS/GOARCH/Go version. Bit-for-bit comparison relies on C03.",
+      "Lean 4 proof (key injectivity, store invariant over all histories) + oracle differential + real build histories vs. cold references", "DESIGN.md 5/C06")
+
 claim("C08",
       "PARTIAL: the SSA analysis deciding WHICH types reach reflection is not modelled in Lean (its order independence is sampled by rebuilds). Proved (Lean 4): names_restored - for every name table and every type string built from literal syntax and obfuscated names, the replacement specification returns the string with every name replaced by its original (C04's round-trip theorem over an arbitrary template, under the explicit unique-parse hypothesis); merge_any / merge_monotone / merge_keys_comm - merging per-package name maps never loses a recorded name and the recorded key set does not depend on merge order. Tie: the replacer garble injects into binaries vs. strings.NewReplacer vs. the specification on 1200 sorted name-table-like pair lists; end to end, generated programs reflect on nested/embedded/pointer/slice/map/array/generic/aliased structs declared in a dependency through direct calls, helper chains, variadics, the stored-then-passed shape, encoding/json Marshal/Unmarshal and %+v, and are rebuilt 5 times after comment-only edits (alternately only the dependency, then every file) - each build must print exactly what the regular build prints.",
       "Trusted: Lean kernel, 3 axioms, hooks, generator. Package qualifiers of Type.String()/%T are outside the compared observables. Known finding (open): a struct reaching reflection only through a fmt verb keeps obfuscated field names.",
